@@ -79,7 +79,9 @@ def evaluate(case):
             continue
         exp = sum(vals) / len(vals)
         kinds.add("fixed_pressure")
-        if not _ok(pj.at[j], exp, 1e-12, 1e-13):
+        # fixed rows read "delta p = 0": the value is kept, not re-imposed, so it drifts by the round-off of the linear
+        # solve in every iteration (measured up to 2e-8 bar on ill-conditioned nets with compressors)
+        if not _ok(pj.at[j], exp, 1e-8, 1e-8):
             f.append(Finding("fixed_pressure", "C03.fixed_pressure", {"junction": j, "p_bar": pj.at[j], "expected_mean": exp, "values": vals}))
     # ---- pressure controllers
     for j, idxs in pc_ctrl.items():
@@ -88,7 +90,7 @@ def evaluate(case):
         idx = idxs[0]
         kinds.add("press_control")
         exp = net.press_control.at[idx, "controlled_p_bar"]
-        if not _ok(pj.at[j], exp, 1e-10, 1e-12):
+        if not _ok(pj.at[j], exp, 1e-8, 1e-7):
             f.append(Finding("press_control", "C03.press_control", {"press_control": int(idx), "junction": j, "p_bar": pj.at[j],
                                                                    "controlled_p_bar": exp}))
     # ---- flow controllers / mass circulation pumps
@@ -99,7 +101,7 @@ def evaluate(case):
                 if np.isnan(m) or not net[t].at[idx, "in_service"] or (act and not net[t].at[idx, act]):
                     continue
                 kinds.add(t)
-                if not _ok(m, net[t].at[idx, col], 1e-10, 1e-13):
+                if not _ok(m, net[t].at[idx, col], 1e-8, 1e-11):
                     f.append(Finding("set_flow", "C03.set_flow." + t, {t: int(idx), "mdot_from": m, "set": net[t].at[idx, col]}))
     # ---- pressure circulation pump: lift between the junction pressures
     if "circ_pump_pressure" in net and len(net.circ_pump_pressure):
